@@ -253,6 +253,8 @@ inductive Leaf
   | arr (items : PS) (minItems maxItems : Option Nat) (enum : List (List EV))
   | obj (props : List (Str × PS)) (required : List Str) (addl : Option PS)
   | deep (props : List (Str × DS)) (required : List Str)
+  /-- a schema without `type` and without composition (`{}`, `{enum: […]}`, `{description: …}`) -/
+  | untyped (enum : List EV)
   deriving DecidableEq, Repr
 
 inductive Sch
@@ -865,13 +867,34 @@ structure Flavour where
   absentAware : Bool
   presenceAware : Bool
   strictDeepKeys : Bool
+  untypedAsString : Bool
 
-def impl : Flavour := ⟨parsePrim, true, false, false, false⟩
-def spec : Flavour := ⟨specPrim, false, true, true, true⟩
+def impl : Flavour := ⟨parsePrim, true, false, false, false, false⟩
+def spec : Flavour := ⟨specPrim, false, true, true, true, true⟩
 
 def Flavour.deepReq (fl : Flavour) (name : Str) (r : Req) : Req := if fl.strictDeepKeys then strictReq name r else r
 
+/-- is the parameter present at all (decodeValue's last switch: `_, found = pathParams[param]`, `values[param]`,
+`header[CanonicalHeaderKey(param)]`, `req.Cookie(param)`) -/
+def present (c : Cell) (name : Str) (r : Req) : Bool :=
+  match c.loc with
+  | .path => r.path.isSome
+  | .query => (qLookup name r.query).isSome
+  | .header => headerFound r
+  | .cookie => r.cookie.isSome
+
 def decodeLeaf (fl : Flavour) (c : Cell) (name : Str) (r : Req) : Leaf → Out
+  -- a schema without type: decodeValue falls through to its last switch and returns (nil, found, nil) — the text is never
+  -- read, ValidateParameter then takes the present parameter for an empty one (finding F-C05-8). The specification reads
+  -- the text as a string (`untypedAsString`).
+  | .untyped _ =>
+    if fl.untypedAsString then
+      (match c.loc with
+       | .path => pathPrim fl.prim name c.style r .string
+       | .query => queryPrim fl.prim name c.style r .string
+       | .header => headerPrim fl.prim c.style r .string
+       | .cookie => cookiePrim fl.prim c.style r .string)
+    else ⟨.nil, present c name r, none⟩
   | .prim ps => match c.loc with
     | .path => pathPrim fl.prim name c.style r ps.t
     | .query => queryPrim fl.prim name c.style r ps.t
@@ -1066,6 +1089,10 @@ def visitLeaf (hit arrEq : EV → PV → Bool) : Leaf → Val → Bool
   | .deep _ req, .nilObj => req.isEmpty
   | .obj _ req _, .dobj kvs => req.isEmpty && kvs.isEmpty   -- only the empty map crosses (never generated otherwise)
   | .deep _ req, .obj kvs => req.isEmpty && kvs.isEmpty
+  -- no type: only the enum speaks (nil is rejected: not nullable)
+  | .untyped _, .nil => false
+  | .untyped enum, .prim v => enum.isEmpty || enum.any (fun e => hit e v)
+  | .untyped enum, _ => enum.isEmpty
   | _, _ => false
 
 def countTrue : List Bool → Nat
@@ -1221,7 +1248,7 @@ def defaultMethod : Loc → Sty × Bool
 /-! ## exclusion predicates (known-finding classes) -/
 
 /-- #31: cookie, form, explode=true with an array or object schema -/
-def leafIsPrim : Leaf → Bool | .prim _ => true | _ => false
+def leafIsPrim : Leaf → Bool | .prim _ => true | .untyped _ => true | _ => false
 def schLeaves : Sch → List Leaf
   | .leaf l => [l] | .allOf ls => ls | .anyOf ls => ls | .oneOf ls => ls
 
@@ -1233,6 +1260,7 @@ def psEnumInt32 (ps : PS) : Bool := !ps.enum.isEmpty && ps.t = .int32
 def psIsInt (ps : PS) : Bool := ps.t = .integer || ps.t = .int32
 
 def leafEnumGoType : Leaf → Bool
+  | .untyped _ => false
   | .prim ps => psEnumInt32 ps
   | .arr items _ _ enum => psEnumInt32 items || (!enum.isEmpty && psIsInt items)
   | .obj sprops _ addl => sprops.any (fun kv => psEnumInt32 kv.2) || (match addl with | some a => psEnumInt32 a | none => false)
@@ -1243,12 +1271,14 @@ def leafEnumGoType : Leaf → Bool
 integers) produced by one leaf meets the enum of another -/
 def psHasEnum (ps : PS) : Bool := !ps.enum.isEmpty
 def leafHasInt32 : Leaf → Bool
+  | .untyped _ => false
   | .prim ps => ps.t = .int32
   | .arr items _ _ _ => items.t = .int32
   | .obj sprops _ addl => sprops.any (fun kv => kv.2.t = .int32) || (match addl with | some a => a.t = .int32 | none => false)
   | .deep sprops _ => sprops.any (fun kv => match kv.2 with
     | .prim ps => ps.t = .int32 | .arr it => it.t = .int32 | .obj sub _ => sub.any (fun x => x.2.t = .int32))
 def leafHasEnum : Leaf → Bool
+  | .untyped enum => !enum.isEmpty
   | .prim ps => psHasEnum ps
   | .arr items _ _ _ => psHasEnum items
   | .obj sprops _ addl => sprops.any (fun kv => psHasEnum kv.2) || (match addl with | some a => psHasEnum a | none => false)
@@ -1289,6 +1319,13 @@ def leafNoProps : Leaf → Bool
 
 def QueryObjNoProps (p : Param) : Bool :=
   p.cell.loc = .query && (schLeaves p.schema).any leafNoProps
+
+/-- F-C05-8: a schema without `type` (and without composition): the text of the parameter is never read -/
+def leafUntyped : Leaf → Bool
+  | .untyped _ => true
+  | _ => false
+
+def UntypedSchema (p : Param) : Bool := (schLeaves p.schema).any leafUntyped
 
 /-- F-C05-7: a deepObject parameter and a query key `name[…` with text outside its bracket groups -/
 def DeepKeyJunk (p : Param) (r : Req) : Bool :=
